@@ -37,7 +37,7 @@ func parseTemplate(kt, url string, format []byte) (key.Parameters, tinkpb.Output
 
 func emptyKD() map[string]any {
 	return map[string]any{"panic": false, "err": true, "url": "", "material": "", "n": 0, "value": "", "parse": false, "eqTpl": false,
-		"eqTplRev": false, "eqWant": false, "eqWantRev": false, "fresh": false}
+		"eqTplRev": false, "eqWant": false, "eqWantRev": false, "fresh": false, "why": ""}
 }
 
 // describeKD records a KeyData a manager returned: its fields, whether its value parses (prefix type pt), and whether
@@ -201,8 +201,8 @@ func doFmt(c *planCase) []vt.Ev {
 		URL, PubURL, Class string
 	}
 	x.URL, x.PubURL, x.Class = jsonStr(c, "url"), jsonStr(c, "pubUrl"), jsonStr(c, "class")
-	ev := vt.Ev{"ev": c.C, "kt": c.Kt, "kind": c.Kind, "p": c.field("p"), "url": x.URL, "fmtBuilt": false, "format": "", "found": false,
-		"tplParse": false, "wantBuilt": false, "km": emptyKD(), "reg": emptyKD(), "nk": map[string]any{"panic": false, "err": true, "name": "", "parse": false, "eqWant": false},
+	ev := vt.Ev{"ev": c.C, "kt": c.Kt, "kind": c.Kind, "p": c.field("p"), "dp": c.field("dp"), "url": x.URL, "fmtBuilt": false, "format": "", "found": false,
+		"tplParse": false, "wantBuilt": false, "lite": false, "km": emptyKD(), "reg": emptyKD(), "nk": map[string]any{"panic": false, "err": true, "name": "", "parse": false, "eqWant": false},
 		"prim": emptyPrim(), "pub": emptyPub()}
 	format, ok := encodeFormat(c.Kt, c.Wire)
 	if !ok {
@@ -216,19 +216,25 @@ func doFmt(c *planCase) []vt.Ev {
 	ev["found"] = true
 	tplParams, pt, err := parseTemplate(c.Kt, x.URL, format)
 	ev["tplParse"] = err == nil
-	want, err := keyfactory.NewParameters(c.Kt, c.P)
+	want, err := keyfactory.NewParameters(c.Kt, c.DP)
 	ev["wantBuilt"] = err == nil
 	if err != nil {
 		want = nil
 	}
+	// quick tier: no repeated generation of expensive (RSA >= 3072 bit) keys
+	lite := !vt.Thorough() && expensive(c.DP)
+	ev["lite"] = lite
 	// ---- the manager's NewKeyData (twice: fresh key material on every call)
 	var kd *tinkpb.KeyData
 	kmr := ev["km"].(map[string]any)
 	if pan, _ := vt.Try(func() { kd, err = km.NewKeyData(append([]byte(nil), format...)) }); pan {
 		kmr["panic"] = true
-	} else if err == nil && kd != nil {
+	} else if err != nil {
+		kmr["why"] = err.Error()
+	} else if kd != nil {
 		describeKD(kmr, kd, pt, tplParams, want)
-		if kd2, err := km.NewKeyData(append([]byte(nil), format...)); err == nil && kd2 != nil {
+		if lite {
+		} else if kd2, err := km.NewKeyData(append([]byte(nil), format...)); err == nil && kd2 != nil {
 			kmr["fresh"] = !bytes.Equal(kd.GetValue(), kd2.GetValue())
 		}
 	}
@@ -246,7 +252,8 @@ func doFmt(c *planCase) []vt.Ev {
 	// ---- the deprecated NewKey: the same key as a proto message
 	nk := ev["nk"].(map[string]any)
 	var msg proto.Message
-	if pan, _ := vt.Try(func() { msg, err = km.NewKey(append([]byte(nil), format...)) }); pan {
+	if lite {
+	} else if pan, _ := vt.Try(func() { msg, err = km.NewKey(append([]byte(nil), format...)) }); pan {
 		nk["panic"] = true
 	} else if err == nil && msg != nil {
 		nk["err"] = false
@@ -275,6 +282,14 @@ func doFmt(c *planCase) []vt.Ev {
 		ev["prim"] = interop(x.Class, x.URL, x.PubURL, kd, pubKD, int64(c.n)*8+1)
 	}
 	return []vt.Ev{ev}
+}
+
+// expensive: key generation for this record costs seconds (RSA moduli of 3072 bits and more)
+func expensive(p keyfactory.Params) bool {
+	if _, ok := p["modulusBits"]; !ok {
+		return false
+	}
+	return p.Int("modulusBits") >= 3072
 }
 
 func jsonStr(c *planCase, name string) string {
